@@ -5,7 +5,7 @@ import ast
 from .. import anchors as A
 from ..cfg import CFG, all_stmts
 from ..effects import func_writes, stmt_calls, stmt_writes
-from ..model import AnalysisError, call_name, dotted, is_self_attr, short
+from ..model import AnalysisError, call_name, dotted, is_self_attr, short, src
 
 TABLE_ATTRS = ("_defns", "mixins")
 
@@ -210,4 +210,42 @@ def enclosing_loops(fnode, node):
         cur = pm[cur]
         if isinstance(cur, (ast.For, ast.While)):
             out.append(cur)
+    return out
+
+
+class Build:
+    """One way a local collection gets its elements: a comprehension, or an accumulate loop."""
+
+    def __init__(self, name, elt, target, it, conds, node, kind):
+        self.name, self.elt, self.target, self.iter, self.conds, self.node, self.kind = name, elt, target, it, conds, node, kind
+
+
+def builds(fnode):
+    """Collections built in fnode: `x = [E for T in I if C]` (list/set/generator, also as the direct argument of a
+    call such as set(...)/list(...)), and `x = []` ... `for T in I: [if C:] x.append(E)` / `x.add(E)`."""
+    from ..norm import atoms
+
+    out = []
+    for n in ast.walk(fnode):
+        if isinstance(n, ast.Assign) and len(n.targets) == 1 and isinstance(n.targets[0], (ast.Name, ast.Subscript, ast.Attribute)):
+            v = n.value
+            if isinstance(v, ast.Call) and call_name(v) in ("list", "set", "tuple", "frozenset", "sorted") and v.args:
+                v = v.args[0]
+            if isinstance(v, (ast.ListComp, ast.SetComp, ast.GeneratorExp)) and len(v.generators) == 1:
+                g = v.generators[0]
+                conds = []
+                for c in g.ifs:
+                    conds += atoms(c)
+                out.append(Build(dotted(n.targets[0]) or src(n.targets[0]), v.elt, g.target, g.iter, conds, n, "comp"))
+        elif isinstance(n, ast.For):
+            for c in ast.walk(n):
+                if isinstance(c, ast.Call) and isinstance(c.func, ast.Attribute) and c.func.attr in ("append", "add") and isinstance(c.func.value, ast.Name) and len(c.args) == 1:
+                    # innermost loop only
+                    inner = [x for x in ast.walk(n) if isinstance(x, ast.For) and x is not n and any(y is c for y in ast.walk(x))]
+                    if inner:
+                        continue
+                    conds = [a for a in path_atoms(fnode, c)]
+                    outer = path_atoms(fnode, n)
+                    conds = conds[: len(conds) - len(outer)] if len(conds) >= len(outer) else conds
+                    out.append(Build(c.func.value.id, c.args[0], n.target, n.iter, conds, n, "loop"))
     return out
